@@ -1,5 +1,6 @@
 import Orx.Basic
 import Orx.KSFault
+import Orx.IW.FullLedgerRun
 /-! # C15 No leaks: consumed collections and internal buffers are released
 
 Allocation ledger of the consuming kinds, written from the (fixed) source: which heap blocks a life-cycle
@@ -89,5 +90,18 @@ theorem repeat_balanced (role : Nat) (cycles : List (List AEv)) (h : ∀ c ∈ c
   | cons c cs ih =>
     simp only [List.flatten_cons, net_append]
     rw [h c (by simp), ih (fun c' hc' => h c' (by simp [hc']))]; rfl
+
+
+/-- **No element of an owning wrapped iterator is leaked**: every element the wrapped iterator ever produced ends up moved
+out or destroyed (corollary of the wrapper's ownership ledger; every program, schedule, ending, also with panics of the
+wrapped iterator or of closures) -/
+theorem owning_iterator_no_element_leaked (s : IWF.ISrc) (hown : s.owning = true) (n : Nat) (progs : Nat → List SOp)
+    (σ : List Nat) (hσ : ∀ t ∈ σ, t < n) (hb : IWF.Below s σ (IWF.init progs))
+    (hfin : ∀ t, t < n → IWF.finished ((IWF.run s σ (IWF.init progs)).d t) = true) (op : OwnerOp) (v : Nat)
+    (hv : v ∈ IWF.prod s (IWF.owner s n (IWF.run s σ (IWF.init progs)) op).1.core.P) :
+    v ∈ (IWF.owner s n (IWF.run s σ (IWF.init progs)) op).1.mv ++ (IWF.owner s n (IWF.run s σ (IWF.init progs)) op).1.dr := by
+  have h := IWF.wrapper_exactly_once s hown n progs σ hσ hb hfin op v
+  have hpos : 0 < (IWF.prod s (IWF.owner s n (IWF.run s σ (IWF.init progs)) op).1.core.P).count v := List.count_pos_iff.mpr hv
+  exact List.count_pos_iff.mp (by rw [List.count_append]; omega)
 
 end Orx.Props.C15
